@@ -86,6 +86,7 @@ void encres_free(encres_t *r);
 void enccfg_json(const enccfg_t *c, char *out, size_t n);
 
 /* ---------- Ogg muxing / scanning ---------- */
+extern __thread int vh_mux_header_style;   /* 0 comment+setup on one page (default), 1 one header packet per page, 2 comment+setup over several small continued pages */
 enum { PAGE_DEFAULT=0, PAGE_FLUSH_EACH, PAGE_FILL, PAGE_RANDOM, PAGE_NKINDS };
 void mux_stream(const pktlist_t *pk, int serial, int policy, int fill, uint64_t seed, buf_t *out);
 void mux_stream_off(const pktlist_t *pk, int serial, int policy, int fill, uint64_t seed, long goffset, buf_t *out);
